@@ -101,7 +101,9 @@ def check(ctx):
     gn = ctx.attr(st, o, "grid_neighbour")
     inner = gn.term
     # the final conversion loop wraps the accumulation loop; the accumulation is its init
-    accum = inner.args[2] if inner.op == "loop" and inner.args[2].op == "loop" else inner
+    # (a final conversion of the member lists to arrays wraps the accumulation: the obligation is on
+    # the loop over the descriptors, wherever the conversion puts it)
+    accum = next((x for x in inner.walk() if x.op == "loop" and isinstance(x.args[1], type(inner)) and x.args[1].op == "enumerate"), inner)
     ctx.compare("R-ASSIGN", "grid_neighbour: the descriptor index is appended under the same label", N, accum, ref.items[3], site)
     ctx.no_shape_conflicts("Shape", "_NearestGridAssigner.predict", I, 0, site)
     # ---- SparseKDE level -------------------------------------------------------------------------------
